@@ -181,7 +181,7 @@ def type_chunks(rng, s, t, split):
     return ["%stype %s%s%s {\n%s\n}" % (head, t.name, impl(ifs), dirs, body(fl))]
 
 
-def chunks(rng, s, p_split=0.4):
+def chunks(rng, s, p_split=0.4, schema_where=None):
     out = [print_directive_def(d) for d in s.directives.values()]
     for t in s.types.values():
         out.extend(type_chunks(rng, s, t, rng.random() < p_split))
@@ -193,8 +193,11 @@ def chunks(rng, s, p_split=0.4):
         # exists (tests/functional/regressions/issue278): only renamed roots are moved into a schema extension
         # schema directives may sit on the definition, on an operation-carrying extension, or on a directive-only extension
         where = rng.choice(["def", "def", "ext-ops", "ext-only"]) if (sd or ni) and rng.random() < max(p_split, 0.0) * 1.5 else "def"
+        if schema_where:
+            where = schema_where        # forced placement of the schema directives (C11 tries all three)
         dtext = print_directives(sd) + ni
-        if len(ops) > 1 and rng.random() < p_split and not any(o[1] in ("Mutation", "Subscription") for o in ops[1:]):
+        if len(ops) > 1 and (rng.random() < p_split or schema_where == "ext-ops") \
+                and not any(o[1] in ("Mutation", "Subscription") for o in ops[1:]):
             out.append("schema%s {\n  query: %s\n}" % (dtext if where == "def" else "", s.query))
             if where == "ext-only":
                 out.append("extend schema%s" % dtext)
